@@ -325,6 +325,113 @@ def slice_const_width(body, op, depth=0):
     return None
 
 
+from .events import ADD_OPS, SUB_OPS
+
+
+def lin(body, op, depth=0):
+    """linear form of an unsigned integer operand over non-negative atoms: ({atom: coeff}, const), or None.
+    atoms: ('len', container key) for x.len(), ('local', idx) for a mutable local, ('param', idx)"""
+    if depth > 8:
+        return None
+    if isinstance(op, Operand) and op.kind == "const":
+        v = op.scalar
+        return ({}, v) if isinstance(v, int) else None
+    t = trace(body, op, through_casts=False)
+    if t.kind == "const" and not t.fields:
+        v = t.root[1].scalar
+        return ({}, v) if isinstance(v, int) else None
+    if t.kind == "rv" and t.root[1].rv.kind == "bin" and (not t.fields or t.fields == ["tuple.0"]):
+        rv = t.root[1].rv
+        a, b_ = lin(body, rv.ops[0], depth + 1), lin(body, rv.ops[1], depth + 1)
+        if a is None or b_ is None:
+            return None
+        if rv.op in ADD_OPS:
+            d = dict(a[0])
+            for k_, v_ in b_[0].items():
+                d[k_] = d.get(k_, 0) + v_
+            return (d, a[1] + b_[1])
+        if rv.op in SUB_OPS and not b_[0]:
+            return (dict(a[0]), a[1] - b_[1])
+        return None
+    if t.fields:
+        return None
+    if t.kind == "call" and (t.root[1].resolved or "").endswith("::len") and t.root[1].args:
+        ck = container_key(trace(body, t.root[1].args[0]))
+        return ({("len", ck): 1}, 0) if ck is not None else None
+    if t.kind == "rv" and t.root[1].rv.kind == "un" and t.root[1].rv.op == "PtrMetadata":
+        ck = container_key(trace(body, t.root[1].rv.ops[0]))
+        return ({("len", ck): 1}, 0) if ck is not None else None
+    if t.kind in ("multi", "undef"):
+        return ({("local", t.root[1]): 1}, 0)
+    if t.kind == "param":
+        return ({("param", t.root[1]): 1}, 0)
+    return None
+
+
+def _stable(body, guard_term, access, atoms):
+    """no atom that is a mutable local is redefined on a path from the guard to the access"""
+    locs = [a[1] for a in atoms if a[0] == "local"]
+    if not locs:
+        return True
+    fwd = set()
+    for tgt, lab in body.edges(guard_term.bb):
+        fwd |= body.reachable(tgt)
+    for l in locs:
+        for d in body.all_defs(l):
+            if d.bb == access.bb and d.idx < access.idx and d.bb in fwd:
+                return False
+            if d.bb != access.bb and d.bb in fwd and access.bb in body.reachable(d.bb) and d.bb != guard_term.bb:
+                return False
+    return True
+
+
+def guard_len_lower_bounds(body, bb, ck):
+    """[(linear form G, guard terminator)] such that len(ck) >= G holds at bb by a controlling comparison"""
+    from .flow import ordering
+    out = []
+    for term, tgt, lab in controlling_edges(body, bb):
+        c, neg = switch_cond(body, term)
+        if c.kind != "bin":
+            continue
+        truth = (lab[1] != 0) if lab[0] == "val" else (0 in lab[1])
+        if neg:
+            truth = not truth
+        o = ordering(c, truth)
+        if o is None:
+            continue
+        lo, hi, strict = o
+        if len_of(body, hi) == ck:
+            g = lin(body, lo)
+            if g is not None:
+                out.append(((g[0], g[1] + (1 if strict else 0)), term))
+    return out
+
+
+def _dominates_form(g, need):
+    """g - need >= 0 for all non-negative atom values"""
+    for k_ in set(g[0]) | set(need[0]):
+        if g[0].get(k_, 0) - need[0].get(k_, 0) < 0:
+            return False
+    return g[1] - need[1] >= 0
+
+
+def linear_discharge(body, access, ck, need, what):
+    """need: linear form that must be <= len(ck).  Returns a reason or None"""
+    if need is None:
+        return None
+    for g, term in guard_len_lower_bounds(body, access.bb, ck):
+        if _dominates_form(g, need) and _stable(body, term, access, set(g[0]) | set(need[0])) and no_redefinition_reaches(body, ck, access.bb):
+            return "%s: the dominating length test gives len >= %s, which covers %s for all values" % (what, _fmt_lin(g), _fmt_lin(need))
+    return None
+
+
+def _fmt_lin(f):
+    parts = ["%s%s" % ("" if c == 1 else "%d*" % c, "len(..)" if a[0] == "len" else "%s#%s" % (a[0], a[1])) for a, c in sorted(f[0].items(), key=str)]
+    if f[1] or not parts:
+        parts.append(str(f[1]))
+    return " + ".join(parts)
+
+
 def try_discharge(body, site, bounds):
     """returns a reason string if the site provably cannot panic by one of the automatic patterns, else None"""
     it = site.item
@@ -356,6 +463,11 @@ def try_discharge(body, site, bounds):
             g = guard_min_len(body, it.bb, ck)
             if g is not None and iv < g and no_redefinition_reaches(body, ck, it.bb):
                 return "constant index %d below the dominating guard len >= %d" % (iv, g)
+        li = lin(body, idx)
+        if li is not None:
+            r = linear_discharge(body, it, ck, (li[0], li[1] + 1), "index")
+            if r:
+                return r
         return None
     if k == "range" and it.args and (it.resolved or "").endswith("copy_from_slice") and len(it.args) == 2:
         # destination and source lengths agree structurally
@@ -448,10 +560,14 @@ def try_discharge(body, site, bounds):
                     truth = not truth
                 from .flow import ordering
                 lo, hi, strict = ordering(c, truth)
-                if trace(body, lo).describe() == ot.describe() and len_of(body, hi) == ck:
+                if trace(body, lo).key() == ot.key() and len_of(body, hi) == ck:
                     okg = True  # bound <= len (or < len) however the test is written
             if okg:
                 reasons.append("%s < len by the dominating comparison" % name)
+                continue
+            lr = linear_discharge(body, it, ck, lin(body, o), name)
+            if lr:
+                reasons.append(lr)
                 continue
             return None
         return "; ".join(reasons)
